@@ -879,6 +879,35 @@ def extract_flags():
                 and isinstance(test.comparators[0], ast.Constant) and test.comparators[0].value is None)
     flags["outbound_resume_loop_ends_only_on_none"] = (len(assigned) == 1 and len(breaks) == 1
                                                        and _is_none_test(breaks[0].test, assigned[0]))
+    # C10 (round 8): the public entry points hand `expected_subprotocols` down UNCHANGED, with default None, and the
+    # demultiplexer refuses an OPEN only when a collection was given: None = "hold every OPEN until somebody listens"
+    import wormhole.wormhole as _ww_c10
+    from wormhole import _boss as _boss_c10
+
+    def _fwd(func, callee):
+        f = getattr(func, "method", func)
+        fn = ast.parse(textwrap.dedent(inspect.getsource(f))).body[0]
+        rebinds = [n for n in ast.walk(fn) if isinstance(n, (ast.Assign, ast.AugAssign, ast.AnnAssign, ast.NamedExpr))
+                   and any(isinstance(t, ast.Name) and t.id == "expected_subprotocols"
+                           for t in (n.targets if isinstance(n, ast.Assign) else [n.target]))]
+        calls = [n for n in ast.walk(fn) if isinstance(n, ast.Call) and _call_name(n) == callee]
+        passed = (len(calls) == 1 and any(isinstance(x, ast.Name) and x.id == "expected_subprotocols"
+                                          for x in list(calls[0].args) + [kw.value for kw in calls[0].keywords]))
+        args = fn.args
+        names = [x.arg for x in args.args]
+        default_none = False
+        if "expected_subprotocols" in names:
+            i = names.index("expected_subprotocols") - (len(names) - len(args.defaults))
+            default_none = i >= 0 and isinstance(args.defaults[i], ast.Constant) and args.defaults[i].value is None
+        return (not rebinds) and passed and default_none
+    flags["api_dilate_forwards_expected_subprotocols"] = _fwd(_ww_c10._DeferredWormhole.dilate, "_boss.dilate")
+    flags["boss_dilate_forwards_expected_subprotocols"] = _fwd(_boss_c10.Boss.dilate, "_D.dilate")
+    flags["dilator_dilate_forwards_expected_subprotocols"] = _fwd(dm.Dilator.dilate, "Manager")
+    go = ast.parse(textwrap.dedent(inspect.getsource(dsub.SubchannelDemultiplex._got_open))).body[0]
+    raises = [n for n in ast.walk(go) if isinstance(n, ast.If)
+              and any(isinstance(x, ast.Raise) for b in n.body for x in ast.walk(b))]
+    flags["demux_refuses_only_when_expected_given"] = (
+        len(raises) == 1 and ast.unparse(raises[0].test) == "self._expected is not None and name not in self._expected")
     return flags
 
 
@@ -1423,6 +1452,36 @@ def extract_transit():
     L.append(f"def inbound_negotiates_at_once : Bool := {'true' if at_once else 'false'}")
     L.append("/-- `Connection.dataReceived` is nothing but the try/except around `_dataReceived` -/")
     L.append(f"def data_received_is_wrapper_only : Bool := {'true' if wrapped else 'false'}")
+    # Common._start_connector: what is hung on the endpoint's connect() Deferred?  Only callbacks (a failure of
+    # connect() is the contender's failure, whatever its class), or errbacks too?
+    src = textwrap.dedent(inspect.getsource(tr.Common._start_connector))
+    tree = ast.parse(src)
+    no_errback = True
+    ncb = 0
+    for n in ast.walk(tree):
+        if isinstance(n, ast.Call) and isinstance(n.func, ast.Attribute):
+            if n.func.attr in ("addErrback", "addBoth", "addCallbacks", "addTimeout", "chainDeferred"):
+                no_errback = False
+            if n.func.attr == "addCallback":
+                ncb += 1
+    L.append("/-- `_start_connector` hangs only `addCallback`s on the endpoint's `connect()` Deferred -/")
+    L.append(f"def start_connector_has_no_errback : Bool := {'true' if (no_errback and ncb >= 1) else 'false'}")
+    # the listener's stop hook: `lp.stopListening()` as a bare statement (its Deferred is not waited for) and the
+    # hook returns its argument unchanged
+    src = textwrap.dedent(inspect.getsource(tr.Common._get_direct_hints))
+    tree = ast.parse(src)
+    fire_and_forget = False
+    for n in ast.walk(tree):
+        if isinstance(n, ast.FunctionDef) and n.name in stoppers and n.args.args:
+            arg = n.args.args[0].arg
+            stmts = [st for st in n.body if not (isinstance(st, ast.Expr) and isinstance(st.value, ast.Constant))]
+            bare = any(isinstance(st, ast.Expr) and isinstance(st.value, ast.Call) and isinstance(st.value.func, ast.Attribute)
+                       and st.value.func.attr == "stopListening" for st in stmts)
+            ret = stmts and isinstance(stmts[-1], ast.Return) and isinstance(stmts[-1].value, ast.Name) \
+                and stmts[-1].value.id == arg
+            fire_and_forget = bool(bare and ret and len(stmts) == 2)
+    L.append("/-- the stop hook on `_listener_d` is `lp.stopListening(); return res`: it does not wait for the port -/")
+    L.append(f"def listener_stop_is_fire_and_forget : Bool := {'true' if fire_and_forget else 'false'}")
     L.append("end WV.Gen.Transit")
     return "\n".join(L) + "\n"
 
